@@ -366,6 +366,14 @@ type snap struct {
 	sum  string
 }
 
+// ageConf makes the stored configuration look two days old (the usual state on a real client:
+// the file was written long before the next store). Code that treats old files in the asset
+// directory differently from fresh ones only shows with this.
+func ageConf(path string) {
+	old := time.Now().Add(-48 * time.Hour)
+	os.Chtimes(path, old, old)
+}
+
 func readSnap(path string) snap {
 	b, err := os.ReadFile(path)
 	if err != nil {
@@ -873,6 +881,7 @@ func (w *worker) trace(seed uint64, inj injection, postHashes bool) *runOut {
 						} else {
 							s := readSnap(confPath)
 							out.snaps = append(out.snaps, s)
+							ageConf(confPath)
 							curStore = -1
 							after = m / 2
 						}
@@ -1069,6 +1078,7 @@ func (w *worker) resetDir(cfg0 snap) error {
 		}
 	}
 	if cfg0.ok {
+		defer ageConf(filepath.Join(w.dir, "ClientConf"))
 		if err := os.WriteFile(filepath.Join(w.dir, "ClientConf"), cfg0.data, 0o644); err != nil {
 			return err
 		}
